@@ -133,25 +133,26 @@ Proof. destruct q; simpl; [auto|]. destruct (Nat.eqb (bid b) n); discriminate. Q
 
 Lemma snoc_item_spec p n x q q' : snoc_item p n x q = Some q' ->
   (forall b', In b' q' -> In b' q \/ exists b, In b q /\ bid b' = bid b /\ bpart b' = bpart b /\ bpart b = p
-                                      /\ btag b' = btag b /\ bapp b' = bapp b /\ bitems b' = bitems b ++ [x]) /\
+                                      /\ btag b' = btag b /\ bapp b' = bapp b /\ bsent b = false
+                                      /\ bsent b' = false /\ bitems b' = bitems b ++ [x]) /\
   (forall b, In b q -> exists b', In b' q' /\ bpart b' = bpart b /\ forall y, In y (bitems b) -> In y (bitems b')) /\
-  (exists b', In b' q' /\ bpart b' = p /\ In x (bitems b')) /\
-  (q' = [] -> q = []).
+  (exists b', In b' q' /\ bpart b' = p /\ In x (bitems b')).
 Proof.
   revert q'. induction q as [|b q IH]; intros q' H; simpl in H; [discriminate|].
   destruct (Nat.eqb (bpart b) p && negb (has_part_q p q)) eqn:E.
-  - destruct (Nat.eqb (bid b) n); [|discriminate]. inversion H; subst; clear H.
+  - destruct (Nat.eqb (bid b) n && negb (bsent b)) eqn:E2; [|discriminate]. inversion H; subst; clear H.
     apply andb_prop in E. destruct E as [E _]. apply Nat.eqb_eq in E.
-    split; [|split; [|split]].
-    + intros b' [H|H]; [|left; right; exact H]. right. exists b. subst b'. simpl. repeat split; auto. left; auto.
+    apply andb_prop in E2. destruct E2 as [_ E2]. apply negb_true_iff in E2.
+    split; [|split].
+    + intros b' [H|H]; [|left; right; exact H]. right. exists b. subst b'. simpl.
+      repeat split; auto. left; auto.
     + intros b0 [H|H].
       * subst b0. eexists. split; [left; reflexivity|]. simpl. split; [reflexivity|].
         intros y Hy. apply in_or_app. auto.
       * exists b0. split; [right; exact H|]. split; auto.
     + eexists. split; [left; reflexivity|]. simpl. split; [exact E|]. apply in_or_app. right. left. reflexivity.
-    + discriminate.
   - destruct (snoc_item p n x q) as [r|] eqn:S; [|discriminate]. inversion H; subst; clear H.
-    destruct (IH _ eq_refl) as (A & B & (b1 & C1 & C2 & C3) & D). split; [|split; [|split]].
+    destruct (IH _ eq_refl) as (A & B & (b1 & C1 & C2 & C3)). split; [|split].
     + intros b' [H|H]; [left; left; exact H|]. destruct (A _ H) as [H1|(b0 & H1 & H2)].
       * left; right; exact H1.
       * right. exists b0. split; [right; exact H1 | exact H2].
@@ -159,7 +160,6 @@ Proof.
       * subst. exists b0. split; [left; reflexivity|]. auto.
       * destruct (B _ H) as (b' & H1 & H2). exists b'. split; [right; exact H1 | exact H2].
     + exists b1. split; [right; exact C1|]. auto.
-    + discriminate.
 Qed.
 
 (* ---------- the invariant of one instance ----------------------------------------------------------- *)
@@ -170,7 +170,8 @@ Record cinv (c : client) : Prop := {
   ci_tag : forall b, In b (bq c) ->
            btag b = kcur c /\ bpart b <> GROUPP /\ forall x, In x (bitems b) -> In (x, bpart b) (accepted c);
   ci_app : forall b, In b (queue c ++ inflight c) -> bapp b = true ->
-           forall x, In x (bitems b) -> In (x, bpart b) (capp c);
+           bsent b = true /\ forall x, In x (bitems b) -> In (x, bpart b) (capp c);
+  ci_sent : forall b, In b (inflight c) -> bsent b = true;
   ci_capp : incl (capp c) (accepted c);
   ci_offs : forall l x, In l (pend_offs c) -> In x l -> In (x, GROUPP) (accepted c);
   ci_acc : lostb c = false -> forall x p, In (x, p) (accepted c) ->
@@ -180,14 +181,14 @@ Record cinv (c : client) : Prop := {
   ci_toc : forall x, In x (ctoc c) -> In (x, GROUPP) (capp c)
 }.
 
-Lemma cinv_client0 : cinv client0.
-Proof. constructor; simpl; intros; try contradiction; auto. intros x H; contradiction. Qed.
-
 Lemma cinv_fresh ep t : cinv (mkC true ep t [] [] false [] [] [] [] None 0 [] false [] false false []).
-Proof. constructor; simpl; intros; try contradiction; auto. intros x H; contradiction. Qed.
-
-Lemma in_bq c b : In b (bq c) <-> In b (queue c) \/ In b (inflight c) \/ In b (deadb c).
-Proof. unfold bq. rewrite !in_app_iff. tauto. Qed.
+Proof.
+  constructor; simpl; intros; try contradiction; auto.
+  - unfold bq in H. simpl in H. contradiction.
+  - intros x H; contradiction.
+Qed.
+Lemma cinv_client0 : cinv client0.
+Proof. apply cinv_fresh. Qed.
 
 Ltac inv_some :=
   repeat match goal with
@@ -197,7 +198,6 @@ Ltac inv_some :=
          | H : match ?x with _ => _ end = Some _ |- _ => let E := fresh "E" in destruct x eqn:E
          end.
 
-(* the step of the instance that an event touches; all other instances are unchanged *)
 Lemma with_client_some s i f s' : with_client s i f = Some s' ->
   exists c c', get s i = Some c /\ f c = Some c' /\ s' = put s i c'.
 Proof.
@@ -209,24 +209,23 @@ Definition gcinv (s : gstate) : Prop := Forall cinv (clients s).
 
 Lemma gcinv_put s i c' : gcinv s -> cinv c' -> gcinv (put s i c').
 Proof. unfold gcinv, put. simpl. intros. apply Forall_set_nth; auto. Qed.
-
 Lemma gcinv_get s i c : gcinv s -> nth_error (clients s) i = Some c -> cinv c.
 Proof. unfold gcinv. intros F H. rewrite Forall_forall in F. apply F. eapply nth_error_In; eauto. Qed.
 
-(* ---- preservation, event by event ---- *)
+(* an update that touches none of the fields the invariant reads *)
 Lemma cinv_only_other c c' :
   cinv c ->
   cst c' = cst c -> queue c' = queue c -> inflight c' = inflight c -> deadb c' = deadb c ->
   kcur c' = kcur c -> accepted c' = accepted c -> capp c' = capp c -> pend_offs c' = pend_offs c ->
   lostb c' = lostb c -> ctoc c' = ctoc c -> cinv c'.
 Proof.
-  intros [A B C D E F G] H1 H2 H3 H4 H5 H6 H7 H8 H9 H10.
+  intros [A B C Cs D E F G] H1 H2 H3 H4 H5 H6 H7 H8 H9 H10.
   constructor; unfold bq; rewrite ?H1, ?H2, ?H3, ?H4, ?H5, ?H6, ?H7, ?H8, ?H9, ?H10; auto.
 Qed.
 
 Lemma cinv_new_txn c t : cinv c -> cst c = READY -> t = IN_TXN -> cinv (new_txn c t).
 Proof.
-  intros [A B C D E F G] R T. destruct (A (or_intror R)) as (Q & I & Dd).
+  intros [A B C Cs D E F G] R T. destruct (A (or_intror R)) as (Q & I & Dd).
   constructor; unfold bq; simpl; rewrite ?Q, ?I; simpl; intros; try contradiction; auto.
   - subst t. destruct H; discriminate.
   - intros x H; contradiction.
@@ -237,9 +236,9 @@ Lemma cinv_accept_new c x p b :
   cinv (set_queue (set_parts (set_accepted c (accepted c ++ [(x, p)])) (txn_parts c)
                              (if memn p (txn_parts c) || memn p (pend_parts c) then pend_parts c
                               else pend_parts c ++ [p]))
-                  (queue c ++ [mkB b p (kcur c) [x] false])).
+                  (queue c ++ [mkB b p (kcur c) [x] false false])).
 Proof.
-  intros [A B C D E F G] S P.
+  intros [A B C Cs D E F G] S P.
   constructor; unfold bq; simpl.
   - rewrite S. intros [H|H]; discriminate.
   - intros b0 H. rewrite <- app_assoc in H. apply in_app_or in H. destruct H as [H|H].
@@ -249,11 +248,12 @@ Proof.
       * subst b0. simpl. repeat split; auto. intros y [Hy|[]]. subst. apply in_or_app. right. left. reflexivity.
       * destruct (B b0) as (B1 & B2 & B3); [unfold bq; apply in_or_app; right; exact H|].
         repeat split; auto. intros y Hy. apply in_or_app. left. auto.
-  - intros b0 H Hb y Hy. rewrite <- app_assoc in H. apply in_app_or in H. destruct H as [H|H].
+  - intros b0 H Hb. rewrite <- app_assoc in H. apply in_app_or in H. destruct H as [H|H].
     + apply (C b0); auto. apply in_or_app; auto.
     + simpl in H. destruct H as [H|H].
       * subst b0. simpl in Hb. discriminate.
       * apply (C b0); auto. apply in_or_app; auto.
+  - exact Cs.
   - intros y Hy. apply in_or_app. left. auto.
   - intros l y Hl Hy. apply in_or_app. left. eauto.
   - intros L y q Hy. apply in_app_or in Hy. destruct Hy as [Hy|Hy].
@@ -270,12 +270,12 @@ Lemma cinv_accept_old c x p n q :
   cinv c -> cst c = IN_TXN -> p <> GROUPP -> snoc_item p n x (queue c) = Some q ->
   cinv (set_queue (set_accepted c (accepted c ++ [(x, p)])) q).
 Proof.
-  intros [A B C D E F G] S P SN.
-  destruct (snoc_item_spec _ _ _ _ _ SN) as (S1 & S2 & (bx & S3 & S4 & S5) & S6).
+  intros [A B C Cs D E F G] S P SN.
+  destruct (snoc_item_spec _ _ _ _ _ SN) as (S1 & S2 & (bx & S3 & S4 & S5)).
   constructor; unfold bq; simpl.
   - rewrite S. intros [H|H]; discriminate.
   - intros b0 H. apply in_app_or in H. destruct H as [H|H].
-    + destruct (S1 _ H) as [H1|(b1 & H1 & Hid & Hp & Hpp & Ht & Ha & Hi)].
+    + destruct (S1 _ H) as [H1|(b1 & H1 & Hid & Hp & Hpp & Ht & Ha & Hs & Hs' & Hi)].
       * destruct (B b0) as (B1 & B2 & B3); [unfold bq; apply in_or_app; auto|].
         repeat split; auto. intros y Hy. apply in_or_app. left. auto.
       * destruct (B b1) as (B1 & B2 & B3); [unfold bq; apply in_or_app; auto|].
@@ -284,17 +284,13 @@ Proof.
         subst y. right. left. congruence.
     + destruct (B b0) as (B1 & B2 & B3); [unfold bq; apply in_or_app; right; exact H|].
       repeat split; auto. intros y Hy. apply in_or_app. left. auto.
-  - intros b0 H Hb y Hy. apply in_app_or in H. destruct H as [H|H].
-    + destruct (S1 _ H) as [H1|(b1 & H1 & Hid & Hp & Hpp & Ht & Ha & Hi)].
+  - intros b0 H Hb. apply in_app_or in H. destruct H as [H|H].
+    + destruct (S1 _ H) as [H1|(b1 & H1 & Hid & Hp & Hpp & Ht & Ha & Hs & Hs' & Hi)].
       * apply (C b0); auto. apply in_or_app; auto.
-      * (* the batch that received the record cannot have been appended already: it is still
-           queued and was never drained... it may have been (a retried batch); its old items are
-           appended, the new one is not claimed *)
-        rewrite Hi in Hy. apply in_app_or in Hy. destruct Hy as [Hy|Hy].
-        -- rewrite Hp. apply (C b1); auto. apply in_or_app; auto. congruence.
-        -- (* the new record in a batch already marked as appended: excluded below *)
-           exfalso. revert Hb Ha H1. clear. intros. exact (False_ind _ (snoc_marked_absurd b0 b1 Hb Ha H1)).
+      * (* the batch that took the record was never drained, hence never appended *)
+        exfalso. destruct (C b1) as (C1 & _); [apply in_or_app; auto | congruence | congruence].
     + apply (C b0); auto. apply in_or_app; auto.
+  - exact Cs.
   - intros y Hy. apply in_or_app. left. auto.
   - intros l y Hl Hy. apply in_or_app. left. eauto.
   - intros L y r Hy. apply in_app_or in Hy. destruct Hy as [Hy|Hy].
